@@ -277,9 +277,8 @@ class Evaluator:
     def getvar(self, env, name):
         if "dynamic-scope" in self.flags:
             for d in reversed(self.dyn_stack):
-                e = d.lookup(name)
-                if e is not None and e is not self.globals:
-                    return e.vars[name]
+                if name in d.vars:
+                    return d.vars[name]
         e = env.lookup(name)
         if e is None:
             raise CklError(ERR)
